@@ -33,6 +33,7 @@ extern size_t yr_verif_arena_initial_size;   /* hook H1 (compiler.c) */
 extern void (*yr_verif_atom_hook)(uint32_t string_idx, const uint8_t* bytes, int length, int backtrack);   /* H3 */
 extern void (*yr_verif_cand_hook)(size_t pos, uint32_t string_idx, int backtrack);                         /* H4 */
 extern void (*yr_verif_chain_hook)(YR_SCAN_CONTEXT* context, YR_STRING* s, uint64_t off, int32_t len);      /* H7 (scan.c) */
+extern void (*yr_verif_ac_tables_hook)(YR_AC_AUTOMATON* automaton);                                       /* H8 (ahocorasick.c) */
 #endif
 
 #ifdef YV_FAULT
@@ -150,6 +151,15 @@ static void on_cand(size_t pos, uint32_t sidx, int backtrack)
 {
   fprintf(out, "{\"e\":\"Cand\",\"pos\":%zu,\"s\":%u,\"bt\":%d}\n", pos, sidx, backtrack);
 }
+/* H8: the logical size of the automaton's tables when they are complete, and how many entries the arena holds for each */
+static long ac_logical = -1, ac_held_t = -1, ac_held_m = -1;
+static void on_ac_tables(YR_AC_AUTOMATON* au)
+{
+  ac_logical = au->tables_size;
+  ac_held_t = (long) (au->arena->buffers[YR_AC_TRANSITION_TABLE].used / sizeof(YR_AC_TRANSITION));
+  ac_held_m = (long) (au->arena->buffers[YR_AC_STATE_MATCHES_TABLE].used / sizeof(uint32_t));
+}
+
 /* H7: one event per call of the chain confirmation algorithm, with the full projected state of the chain AFTER the call:
    the unconfirmed lists of every piece and the confirmed list of the head.  An unbounded gap (INT_MAX) is logged as -1. */
 static void on_chain(YR_SCAN_CONTEXT* ctx, YR_STRING* s, uint64_t off, int32_t len)
@@ -873,8 +883,13 @@ int main(int argc, char** argv)
         fprintf(out, "{\"e\":\"GetRules\",\"cid\":%d,\"rid\":%d,\"ret\":-1,\"skipped\":\"compiler has errors\"}\n", c, rr);
         continue;
       }
+#ifdef YARA_VERIF
+      yr_verif_ac_tables_hook = on_ac_tables; ac_logical = -1;
+#endif
       int r = yr_compiler_get_rules(compilers[c], &rulesets[rr]);
       if (r != ERROR_SUCCESS) rulesets[rr] = NULL;
+      if (r == ERROR_SUCCESS && ac_logical >= 0)
+        fprintf(out, "{\"e\":\"AcTables\",\"size\":%ld,\"t\":%ld,\"m\":%ld}\n", ac_logical, ac_held_t, ac_held_m);
       fprintf(out, "{\"e\":\"GetRules\",\"cid\":%d,\"rid\":%d,\"ret\":%d", c, rr, r);
       if (r == ERROR_SUCCESS) fprintf(out, ",\"num_rules\":%u,\"num_strings\":%u", rulesets[rr]->num_rules, rulesets[rr]->num_strings);
       fputs("}\n", out);
@@ -921,8 +936,19 @@ int main(int argc, char** argv)
         }
       }
       for (uint32_t b = 0; b < a->num_buffers; b++) free(reg[b]);
-      fprintf(out, "{\"e\":\"RelocAudit\",\"rid\":%d,\"relocs\":%ld,\"null\":%ld,\"pointers\":%ld,\"unregistered\":%ld,\"dangling\":%ld,\"outside\":%ld,\"first_unregistered\":[%s],\"first_dangling\":[%s]}\n",
-              rr, nreloc, null_slots, candidates, unregistered, dangling, outside, firsts, firstd);
+      /* the two tables of the automaton have one entry per slot: same number of entries, and every transition leads to a slot
+         inside both (what lies beyond the used part of a buffer is not saved) */
+      long ac_t = -1, ac_m = -1, ac_bad = 0;
+      if (a->num_buffers > YR_AC_STATE_MATCHES_TABLE)
+      {
+        ac_t = (long) (a->buffers[YR_AC_TRANSITION_TABLE].used / sizeof(YR_AC_TRANSITION));
+        ac_m = (long) (a->buffers[YR_AC_STATE_MATCHES_TABLE].used / sizeof(uint32_t));
+        YR_AC_TRANSITION* tt = (YR_AC_TRANSITION*) a->buffers[YR_AC_TRANSITION_TABLE].data;
+        for (long i = 0; i < ac_t; i++)
+          if (tt[i] != 0 && ((long) YR_AC_NEXT_STATE(tt[i]) >= ac_t || (long) YR_AC_NEXT_STATE(tt[i]) >= ac_m)) ac_bad++;
+      }
+      fprintf(out, "{\"e\":\"RelocAudit\",\"ac_t\":%ld,\"ac_m\":%ld,\"ac_bad\":%ld,\"rid\":%d,\"relocs\":%ld,\"null\":%ld,\"pointers\":%ld,\"unregistered\":%ld,\"dangling\":%ld,\"outside\":%ld,\"first_unregistered\":[%s],\"first_dangling\":[%s]}\n",
+              ac_t, ac_m, ac_bad, rr, nreloc, null_slots, candidates, unregistered, dangling, outside, firsts, firstd);
     }
     else if (!strcmp(op, "rinfo")) { NEED(1); if (rulesets[slot(tok[1], MAXSLOT)]) log_rules_info(slot(tok[1], MAXSLOT)); }
     else if (!strcmp(op, "cdestroy"))
